@@ -60,6 +60,7 @@ FUNCS = [  # (lean name, file, class, method, translator key, lean type)
     ("setState", "statemachine/statemachine.py", "StateMachine", "__setstate__", "setstate", "List St.SStmt"),
     ("allowedEvents", "statemachine/statemachine.py", None, "allowed", "allowed", "St.AllowedScript"),
     ("registry", "statemachine/callbacks.py", None, "registry", "registry", "R.RegScript"),
+    ("decl", "statemachine/events.py", None, "decl", "decl", "D.DeclScript"),
 ]
 ASYNC_DEF = {"activateAsync", "triggerAsync", "processAsync", "wrapperDunder", "execAsyncCall", "execAsyncAll"}
 
@@ -1596,6 +1597,134 @@ def tr_registry(repo):
             + ", ".join(rs) + "],\n  check := [" + ", ".join(ck) + "], asyncOrSync := " + asy + " }")
 
 
+# ----------------------------------------------------------------------------------------- declaration layer
+
+def tr_decl(repo):
+    """events.py, transition.py (match, _copy_with_args), transition_list.py, state.py builders -> D.DeclScript"""
+    M = lambda rel, cls, name: method(repo, rel, cls, name)
+    ev, tr, tl, st = ("statemachine/events.py", "statemachine/transition.py", "statemachine/transition_list.py",
+                      "statemachine/state.py")
+    one = lambda fn, table, what: _stmts(fn, table, what)
+    if one(M(ev, "Events", "match"), {"return any((X0 == event for X0 in self))": "k"}, "Events.match") != "[k]":
+        raise Untranslatable("Events.match")
+    if one(M(ev, "Events", "__iter__"), {"return iter(self._items)": "k"}, "Events.__iter__") != "[k]":
+        raise Untranslatable("Events.__iter__")
+    if one(M(tr, "Transition", "match"), {"return self._events.match(event)": "k"}, "Transition.match") != "[k]":
+        raise Untranslatable("Transition.match")
+    fn = M(tl, "TransitionList", "unique_events")
+    if [ast.unparse(d) for d in fn.decorator_list] != ["property"]:
+        raise Untranslatable("unique_events is not a property")
+    env = {}
+    uq = []
+    for x in _body(fn):
+        t = ntext(x, env)
+        m = re.match(r"^(\w+) = \{\}$", t)
+        if m:
+            bind(env, m.group(1), "TMP")
+            uq.append(".initDict")
+            continue
+        if re.match(r"^for (\w+) in self\.transitions:\n    for (\w+) in \1\.events:\n        TMP\[\2\] = True$", t):
+            uq.append(".forTransitionsForEventsSetKey")
+            continue
+        if t in ("return list(TMP.keys())", "return list(TMP)"):
+            uq.append(".retKeys")
+            continue
+        raise Untranslatable(f"unique_events: statement at line {x.lineno} not recognised: {t!r}")
+    fn = M(ev, "Events", "add")
+    ea = []
+    for x in _body(fn):
+        t = ntext(x)
+        if t == "if events is None:\n    return self":
+            ea.append(".returnSelfIfNone")
+        elif t == "unprepared = ensure_iterable(events)":
+            ea.append(".ensureIterable")
+        elif t == ("for events in unprepared:\n    for event in events.split(' '):\n        if event in self._items:\n"
+                   "            continue\n        if isinstance(event, Event):\n            self._items.append(event)\n"
+                   "        else:\n            self._items.append(Event(id=event, name=event))"):
+            ea.append(".forEachSplitOnSpace [.skipIfPresent, .appendEventOrNew]")
+        elif t == "return self":
+            ea.append(".retSelf")
+        else:
+            raise Untranslatable(f"Events.add: statement at line {x.lineno} not recognised: {t!r}")
+    er = one(M(ev, "Events", "_replace"), {"self._items.remove(old)": ".removeOld", "self._items.append(new)": ".appendNew"},
+             "Events._replace")
+    fn = M(st, "AnyState", "_on_event_defined")
+    body = _body(fn)
+    if len(body) != 1 or not isinstance(body[0], ast.For) or ntext(body[0].iter) != "states" or body[0].orelse \
+            or not isinstance(body[0].target, ast.Name):
+        raise Untranslatable("AnyState._on_event_defined: not one loop over states")
+    env = {body[0].target.id: "STATE"}
+    an = []
+    for b in body[0].body:
+        bt = ntext(b, env)
+        if bt == "if STATE.final:\n    continue":
+            an.append(".skipFinal")
+            continue
+        m = re.match(r"^(\w+) = transition\._copy_with_args\(source=STATE, event=event\)$", bt)
+        if m:
+            bind(env, m.group(1), "NEWT")
+            an.append(".copyWithSourceAndEvent")
+            continue
+        if bt == "STATE.transitions.add_transitions(NEWT)":
+            an.append(".addToState")
+            continue
+        raise Untranslatable(f"AnyState._on_event_defined: statement at line {b.lineno} not recognised: {bt!r}")
+    fn = M(tr, "Transition", "_copy_with_args")
+    cp = []
+    for x in _body(fn):
+        t = ntext(x)
+        m = re.match(r"^(\w+) = kwargs\.pop\('(\w+)', self\.(\w+)\)$", t)
+        if m and m.group(1) == m.group(2) == m.group(3):
+            cp.append(f'.popOrOwn "{m.group(1)}"')
+            continue
+        if t == "new_transition = Transition(source=source, target=target, event=event, internal=internal, **kwargs)":
+            cp.append(".newTransition")
+            continue
+        if t == "for spec in self._specs:\n    new_spec = copy(spec)\n    new_transition._specs.add(new_spec, new_spec.group)":
+            cp.append(".forSpecsShallowCopySameGroup")
+            continue
+        if t == "return new_transition":
+            cp.append(".ret")
+            continue
+        raise Untranslatable(f"_copy_with_args: statement at line {x.lineno} not recognised: {t!r}")
+    tree = ast.parse(open(os.path.join(repo, tr)).read())
+    if not any(isinstance(n, ast.ImportFrom) and n.module == "copy" and any(a.name == "copy" and a.asname is None for a in n.names)
+               for n in tree.body):
+        raise Untranslatable("transition.py: `copy` is not `from copy import copy`")
+    T = {"return TransitionList(self.transitions).add_transitions(other)": ".orIsNewListThenAdd",
+         "if isinstance(transition, TransitionList):\n    transition = transition.transitions": ".unwrapList",
+         "transitions = ensure_iterable(transition)": ".ensureIterable",
+         "for transition in transitions:\n    assert isinstance(transition, Transition)\n    self.transitions.append(transition)":
+             ".appendEachInOrder",
+         "for transition in transitions:\n    self.transitions.append(transition)": ".appendEachInOrder",
+         "return self": ".retSelf",
+         "self.add_event(event)": ".addEventToAll",
+         "for transition in self.transitions:\n    transition.source._on_event_defined(event=event, transition=transition, states=states)":
+             ".tellEachSource",
+         "for transition in self.transitions:\n    transition.add_event(event)": ".forTransitionsAddEvent"}
+    tl_or = one(M(tl, "TransitionList", "__or__"), T, "TransitionList.__or__")
+    tl_add = one(M(tl, "TransitionList", "add_transitions"), T, "TransitionList.add_transitions")
+    tl_on = one(M(tl, "TransitionList", "_on_event_defined"), T, "TransitionList._on_event_defined")
+    tl_ev = one(M(tl, "TransitionList", "add_event"), T, "TransitionList.add_event")
+    Bd = {"transitions = TransitionList((Transition(self._state, X0, **kwargs) for X0 in states))": ".onePerTargetInOrder",
+          "self._state.transitions.add_transitions(transitions)": ".addToOwnState",
+          "transitions = TransitionList()": ".newList",
+          "for origin in states:\n    transition = Transition(origin, self._state, **kwargs)\n"
+          "    origin.transitions.add_transitions(transition)\n    transitions.add_transitions(transition)":
+              ".onePerOriginAddedToOriginAndList",
+          "return self.__call__(AnyState(), **kwargs)": ".callWithAnyState",
+          "return transitions": ".ret"}
+    to_call = one(M(st, "_ToState", "__call__"), Bd, "_ToState.__call__")
+    from_call = one(M(st, "_FromState", "__call__"), Bd, "_FromState.__call__")
+    from_any = one(M(st, "_FromState", "any"), Bd, "_FromState.any")
+    return ("{\n  eventsMatch := .anyEqual, transitionMatch := .delegateToEvents,\n  uniqueEvents := [" + ", ".join(uq)
+            + "],\n  eventsAdd := [" + ", ".join(ea) + "],\n  eventsReplace := " + er
+            + ",\n  anyOnEventDefined := [" + ", ".join(an) + "],\n  copyWithArgs := [" + ", ".join(cp)
+            + "],\n  tlOr := " + tl_or + ", tlAddTransitions := " + tl_add + ",\n  tlOnEventDefined := " + tl_on
+            + ", tlAddEvent := " + tl_ev + ",\n  toCall := " + to_call + ", fromCall := " + from_call
+            + ", fromAny := " + from_any + " }")
+
+
 TRANSLATORS = {"eventcall": tr_eventcall, "send": tr_send, "start": tr_start, "injected": tr_injected,
                "activate": tr_activate, "trigger": tr_trigger, "process": tr_process, "wrapper": tr_wrapper,
                "executor": tr_executor, "bind": tr_bind,
@@ -1635,6 +1764,9 @@ def translate(repo):
                 continue
             if key == "registry":
                 res[name] = (ty, tr_registry(repo), None)
+                continue
+            if key == "decl":
+                res[name] = (ty, tr_decl(repo), None)
                 continue
             if key == "injected":
                 if [ast.unparse(d) for d in fn.decorator_list] != ["property"]:
@@ -1751,6 +1883,15 @@ SELFTEST_EDITS = [
     ("statemachine/dispatcher.py", "        return f\"{attr_name}@{self.resolver_id}\"", "        return f\"{attr_name}\""),
     ("statemachine/dispatcher.py", "            if (spec.reference not in allowed_references) or (", "            if (", ),
     ("statemachine/dispatcher.py", "            return cls(obj, all_attrs, str(id(obj)))", "            return cls(obj, all_attrs, type(obj).__name__)"),
+    ("statemachine/events.py", "        return any(e == event for e in self)", "        return any(e.startswith(event) for e in self)"),
+    ("statemachine/transition.py", "        return self._events.match(event)", "        return event in self.event"),
+    ("statemachine/transition.py", "            new_spec = copy(spec)", "            new_spec = deepcopy(spec)"),
+    ("statemachine/transition_list.py", "        return TransitionList(self.transitions).add_transitions(other)", "        return self.add_transitions(other)"),
+    ("statemachine/transition_list.py", "                tmp_ordered_unique_events_as_keys_on_dict[event] = True\n\n        return list(tmp_ordered_unique_events_as_keys_on_dict.keys())", "                tmp_ordered_unique_events_as_keys_on_dict[event] = True\n\n        return sorted(tmp_ordered_unique_events_as_keys_on_dict.keys())"),
+    ("statemachine/state.py", "            if state.final:\n                continue\n", ""),
+    ("statemachine/state.py", "            new_transition = transition._copy_with_args(source=state, event=event)", "            new_transition = transition._copy_with_args(source=state)"),
+    ("statemachine/state.py", "            origin.transitions.add_transitions(transition)\n", ""),
+    ("statemachine/events.py", "                if event in self._items:\n                    continue\n", ""),
 ]
 
 
@@ -1790,6 +1931,7 @@ import SMV.Src.IRBind
 import SMV.Src.IRCheck
 import SMV.Src.IRStore
 import SMV.Src.IRReg
+import SMV.Src.IRDecl
 /-! GENERATED by `harness/srcgen.py --write-expected` from the tree the theorems of `SMV/Src/Tie.lean` were
 proved for. Do not edit by hand. -/
 """
